@@ -199,46 +199,61 @@ inductive Outcome where
 /-- `bpLoadCalls`: store.LoadGroup, NewChainInfo, store.LoadShare, group.Find -/
 def bpLoadCalls : List String := ["store.LoadGroup", "NewChainInfo", "store.LoadShare", "group.Find"]
 
-/-- `BeaconProcess.Load` -/
-def bpLoad (member : Nat → Bool) (d : Disk) : Outcome :=
-  match loadFile d.group with
+/-- `BeaconProcess.Load`, on what the two loaders answered -/
+def bpLoadL (member : Nat → Bool) (g s : Loaded) : Outcome :=
+  match g with
   | .missing => .notStarted       -- `err != nil || bp.group == nil`
   | .err => .notStarted
   | .panics => .panicked
-  | .truncated _ => .panicked       -- NewChainInfo(group) dereferences the (missing / empty) distributed public key
+  | .truncated _ => .panicked     -- NewChainInfo(group) dereferences the (missing / empty) distributed public key
   | .val g =>
-    match loadFile d.share with
+    match s with
     | .missing => .shareMissing
     | .err => .decodeErr
     | .panics => .panicked
     | s => if member g then .ok g s else .notInGroup
 
+def bpLoad (member : Nat → Bool) (d : Disk) : Outcome := bpLoadL member (loadFile d.group) (loadFile d.share)
+
 def loadBeaconFromStoreCalls : List String :=
   ["InstantiateBeaconProcess", "dkg.DKGStatus", "fresh:store.LoadGroup", "fresh:store.LoadShare", "fresh:dkg.Migrate",
    "bp.Load", "AddBeaconHandler", "bp.StartBeacon"]
 
-/-- `DrandDaemon.LoadBeaconFromStore`; returns the outcome and the disk (the v1 migration path and StartBeacon write) -/
-def startup (member : Nat → Bool) (d : Disk) : Outcome × Disk :=
-  let started (o : Outcome) (d : Disk) : Outcome × Disk :=
-    match o with
-    | .ok _ _ => (o, { d with chain := if d.chain.isEmpty then [0] else d.chain })  -- NewHandler stores the genesis beacon
-    | _ => (o, d)
-  match d.db.finished with
-  | some _ => started (bpLoad member d) d
+/-- `DrandDaemon.LoadBeaconFromStore`, outcome: with a completed epoch in dkg.db it is `Load`; without one
+(`freshRun`) a missing group file means a fresh install, an existing one triggers the v1 migration path -/
+def startupOutcome (member : Nat → Bool) (fin : Option Nat) (g s : Loaded) : Outcome :=
+  match fin with
+  | some _ => bpLoadL member g s
   | none =>
-    -- freshRun: migration path from a v1 group file
-    match loadFile d.group with
-    | .missing => (.fresh, d)
-    | .err => (.decodeErr, d)
-    | .panics => (.panicked, d)
+    match g with
+    | .missing => .fresh            -- fs.ErrNotExist is ignored, `g == nil`
+    | .err => .decodeErr
+    | .panics => .panicked
     | _ =>
-      match loadFile d.share with
-      | .missing => (.shareMissing, d)
-      | .err => (.decodeErr, d)
-      | .panics => (.panicked, d)
-      | _ =>
-        let d' := { d with db := ⟨.complete 1, some 1⟩ }
-        started (bpLoad member d') d'
+      match s with
+      | .missing => .shareMissing
+      | .err => .decodeErr
+      | .panics => .panicked
+      | _ => bpLoadL member g s     -- after dkg.Migrate
+
+def Loaded.decodes : Loaded → Bool
+  | .val _ => true
+  | .truncated _ => true
+  | _ => false
+
+def Outcome.isOk : Outcome → Bool
+  | .ok _ _ => true
+  | _ => false
+
+/-- `DrandDaemon.LoadBeaconFromStore`: outcome and what start-up itself writes (the migration stores an epoch-1
+record; `StartBeacon` → `NewHandler` stores the genesis beacon) -/
+def startup (member : Nat → Bool) (d : Disk) : Outcome × Disk :=
+  let g := loadFile d.group
+  let s := loadFile d.share
+  let o := startupOutcome member d.db.finished g s
+  let d1 := if d.db.finished.isNone && g.decodes && s.decodes then { d with db := ⟨.complete 1, some 1⟩ } else d
+  let d2 := if o.isOk && d1.chain.isEmpty then { d1 with chain := [0] } else d1
+  (o, d2)
 
 structure Recovered where
   fin : Option Nat
@@ -288,5 +303,7 @@ def Resumes (member : Nat → Bool) (r : Recovered) : Bool :=
 
 /-- ascending, gap-free from round 0 -/
 def GapFree (l : List Nat) : Prop := l = List.range l.length
+
+instance (l : List Nat) : Decidable (GapFree l) := by unfold GapFree; infer_instance
 
 end Drand.Persist
